@@ -216,17 +216,20 @@ theorem step_masgK (j i : Nat) : StepSim (.masgK j i) := by
   · leaf h hR
   · leaf h hR
   · leaf h hR
-  · have hR1 : R (mdisc s a) (sdisc t b) := R_disc hs hR hr
-    change (match aget (mdisc s a).K i with
-      | some p' => some ({ mdisc s a with K := aset (aset (mdisc s a).K i none) j p' }, "ok")
-      | none => some (mdisc s a, "ok")) = some (s', r) at h
-    rcases hR1.K.get i with ⟨m1, m2⟩ | ⟨a2, b2, m1, m2, hr2⟩
-    · rw [sdisc_K, k2] at m2; cases m2
-    · rw [sdisc_K, k2] at m2; cases m2
-      simp only [m1] at h
-      have hfin := hR1.updK ((hR1.K.set i (PtrR.rfl' none)).set j hr2)
-      rw [sdisc_K] at hfin
-      cases h
-      exact ⟨_, _, rfl, hfin, .refl _⟩
+  · by_cases e : j = i
+    · simp only [e, ↓reduceIte] at h ⊢; leaf h hR
+    · simp only [e, ↓reduceIte] at h ⊢
+      have hR1 : R (mdisc s a) (sdisc t b) := R_disc hs hR hr
+      change (match aget (mdisc s a).K i with
+        | some p' => some ({ mdisc s a with K := aset (aset (mdisc s a).K i none) j p' }, "ok")
+        | none => some (mdisc s a, "ok")) = some (s', r) at h
+      rcases hR1.K.get i with ⟨m1, m2⟩ | ⟨a2, b2, m1, m2, hr2⟩
+      · rw [sdisc_K, k2] at m2; cases m2
+      · rw [sdisc_K, k2] at m2; cases m2
+        simp only [m1] at h
+        have hfin := hR1.updK ((hR1.K.set i (PtrR.rfl' none)).set j hr2)
+        rw [sdisc_K] at hfin
+        cases h
+        exact ⟨_, _, rfl, hfin, .refl _⟩
 
 end Sigc.Refine
